@@ -71,7 +71,7 @@ func runLockRace(c lrCase) (o lrObs) {
 		hold = 400 * time.Microsecond
 	}
 	var mu sync.Mutex
-	owner := map[any]int64{}       // queue -> goroutine inside its frame loop
+	owner := map[any]int64{}           // queue -> goroutine inside its frame loop
 	waiting := map[any]*atomic.Int64{} // queue -> a Lock() caller spinning at the barrier (value: the instant to go on)
 	base := time.Now()
 	var pairings atomic.Int64
